@@ -450,3 +450,44 @@ func init() {
 		ruleLimiter(c, "C17-R7")
 	})
 }
+
+func init() {
+	register("C07", propMeta{
+		Explanation: staticNote + "Decides the structural conditions of a lossless, wire-compatible codec: (R1) for KV, DBI, Snapshot and Meta the (field number, wire type) tables of the generated reference schema (struct tags), of the Field* constants, of the hand-written writers (EncodeTag sites) and of the hand-written readers (switch cases with expectWT / get* helpers) are equal; (R2) the size phase of DBI.Append declares exactly what the emit phase writes and reserves exactly header+message, interpreted on the extracted events for lengths across every varint boundary, and the buffer has capacity after growth; (R3) every decode/skip call in the cursor parsers reads from the buffer sliced at the advancing cursor; (R4) unknown fields are skipped by wire type in every reader; (R5) decoders merge into their receiver and never reset it.",
+		NotDecided:  "Round-trip equality for all inputs (byte content of the emitted fields is not interpreted); the csproto decoder used for the outer message; gzip.",
+		Assumptions: []string{"csproto.EncodeTag/EncodeVarint write SizeOfVarint bytes; copy copies len(src) bytes into the reserved space"},
+	}, func(c *Check) {
+		c.Rule("C07-R1", "SCHEMA-TABLE agreement: reference tags = constants = writer = reader")
+		c.Rule("C07-R2", "SIZE-EMIT / GROW-SUFFICIENT")
+		c.Rule("C07-R3", "READ-AT-CURSOR")
+		c.Rule("C07-R4", "UNKNOWN-SKIPPED")
+		c.Rule("C07-R5", "DECODERS-MERGE")
+		ruleSchemaTables(c, "C07-R1", "C07-R4")
+		ruleAppendSizes(c, "C07-R2")
+		ruleReadAtCursor(c, "C07-R3", "C07-R3")
+		ruleLengthGuarded(c, "C07-R3")
+		ruleNoReceiverReset(c, "C07-R5")
+	})
+
+	register("C08", propMeta{
+		Explanation: staticNote + "Decides the parser discipline that keeps hostile blobs from crashing or hanging the process: (R1) every slice bounded by a wire-derived length is dominated, on its path, by 'length >= 0' and 'length <= remaining bytes'; fixed-size reads by a remaining-bytes check; skipTag returns only constants, decoded varint lengths, or a 64-bit length bounded by len(data) before its conversion to int, each checked against len(data); (R2) every cycle of the cursor loops advances the cursor by at least one decoded varint and reads at the cursor; (R3) no explicit panic is on a feasible path reachable from the decode entry points; (R4) an undecodable blob is marked corrupt (token released, remembered as processed), copied into the ignore list that gates the listing, and the older decodable snapshot is still delivered; (R5) every decode error surfaces to the caller; (R6) pre-allocations depend only on the blob's length; the decoder's field-length limit keeps its arithmetic from overflowing.",
+		NotDecided:  "Time/memory proportionality in general (gzip ratio); internals of csproto and gzip; a blob whose framing decodes but whose entries are malformed fails later inside the merge (policy stated in the code).",
+		Assumptions: []string{"csproto.DecodeVarint: on success 1 <= n <= len(p)"},
+	}, func(c *Check) {
+		c.Rule("C08-R1", "LENGTH-GUARDED")
+		c.Rule("C08-R2", "CURSOR-PROGRESS")
+		c.Rule("C08-R3", "NO-REACHABLE-PANIC")
+		c.Rule("C08-R4", "CORRUPT-IGNORED")
+		c.Rule("C08-R5", "DECODE-ERRORS-SURFACE")
+		c.Rule("C08-R6", "RESOURCE bounds visible in the code shape")
+		ruleLengthGuarded(c, "C08-R1")
+		ruleReadAtCursor(c, "C08-R2", "C08-R2")
+		ruleNoPanic(c, "C08-R3")
+		ruleDownloaderLoad(c, "C08-R4", "C08-R4", "C08-R4")
+		ruleMarkCorrupt(c, "C08-R4")
+		ruleReceiverListing(c, "C08-R4", "C08-R4")
+		ruleRetryAndNotify(c, "C08-R4")
+		ruleErrFlow(c, "C08-R5", "snapshot.LoadData", "snapshot.(*Snapshot).Unmarshal", "snapshot.NewDBIFromData", "snapshot.(*Meta).Unmarshal", "snapshot.(*DBI).indexData", "snapshot.(*DBI).Next", "snapshot.(*KV).Unmarshal", "snapshot.skipTag")
+		ruleDecodeResources(c, "C08-R6")
+	})
+}
